@@ -325,6 +325,16 @@ class FnTr:
         if n in self.c.consts and (len(segs) == 1 or segs[-2] in ('crate', 'super', 'self')):
             ty, val, _ = self.c.consts[n]
             return n, ty
+        if len(segs) >= 2:
+            owner_ = segs[-2]
+            if owner_ == 'Self' and self.fi.self_ty is not None:
+                owner_ = strip_ref(self.fi.self_ty)[0][1]
+            if (owner_ + '_' + n) in self.c.consts:
+                ty, val, _ = self.c.consts[owner_ + '_' + n]
+                return owner_ + '_' + n, ty
+            if (owner_, n) in self.c.BUILTIN_CONSTS:
+                bits = {'u8': 8, 'u16': 16, 'u32': 32, 'u64': 64, 'usize': 64}[owner_]
+                return str(self.c.BUILTIN_CONSTS[(owner_, n)]), (('int', 32) if n == 'BITS' else ('int', bits))
         if n in self.c.structs and self.c.structs[n].unit:
             return n + '_mk', ('adt', n, ())
         if len(segs) >= 2:
